@@ -22,7 +22,7 @@ func TestReplay(t *testing.T) { ev.ReplayWitnesses(t) }
 type Op struct {
 	Kind   string   `json:"kind"`             // get | expire | bump | mode
 	Conds  []string `json:"conds,omitempty"`  // get: client conditional kinds
-	Scheme string   `json:"scheme,omitempty"` // bump: etag | weak | lm | both | none
+	Scheme string   `json:"scheme,omitempty"` // bump: etag | weak | lm | both | none | sticky | sticky-weak | sticky+lm (tag unchanged across versions)
 	Mode   string   `json:"mode,omitempty"`   // mode: standard | always200 | cond500 | all500 | all404 | cond403
 }
 
@@ -95,6 +95,15 @@ func runHistory(env *px.Env, org *origin.Origin, site *origin.Site, c Case, idx 
 		case "weak":
 			v.ETag = fmt.Sprintf(`W/"%s-%d"`, id, ver)
 		case "lm":
+			v.LastMod = time.Date(2020, 1, 1, 0, 0, ver, 0, time.UTC).Format("Mon, 02 Jan 2006 15:04:05 GMT")
+		case "sticky":
+			// the tag does not change with the content (a coarse strong tag): only an origin that answers the
+			// revalidation with a 200 tells the proxy that the body is new
+			v.ETag = fmt.Sprintf(`"%s-sticky"`, id)
+		case "sticky-weak":
+			v.ETag = fmt.Sprintf(`W/"%s-sticky"`, id)
+		case "sticky+lm":
+			v.ETag = fmt.Sprintf(`W/"%s-sticky"`, id)
 			v.LastMod = time.Date(2020, 1, 1, 0, 0, ver, 0, time.UTC).Format("Mon, 02 Jan 2006 15:04:05 GMT")
 		case "both":
 			v.ETag = fmt.Sprintf(`"%s-%d"`, id, ver)
@@ -300,7 +309,7 @@ func keys(m map[int]bool) []int {
 }
 
 var sub = ev.Register("revalidation-histories",
-	"6-10 concurrent per-resource histories of get(with client conditionals: If-None-Match, If-Modified-Since, If-Match, If-Unmodified-Since, well-formed / malformed / repeated, all carrying marker values) / expire(sleep 1.5 L) / origin bump with validator scheme in {ETag, weak ETag, Last-Modified, both, none} / origin mode in {standard, always 200, 500 or 403 on conditionals, 500/404 always}; model = stored version + its validators; oracle on the origin log: revalidations carry exactly the stored validators, no client marker ever reaches the origin; on the client: 304 keeps the stored body (REVALIDATED) and the next request within the default lifetime is a HIT, 200 replaces it and the old body is never served again, any other status is relayed and the next request asks the origin again; non-trivial = history with >= 2 expiries including a 304 and a 200 replacement; distinct by history",
+	"6-10 concurrent per-resource histories of get(with client conditionals: If-None-Match, If-Modified-Since, If-Match, If-Unmodified-Since, well-formed / malformed / repeated, all carrying marker values) / expire(sleep 1.5 L) / origin bump with validator scheme in {ETag, weak ETag, Last-Modified, both, none, a strong or weak tag that stays the same while the content changes (with or without a changing Last-Modified)} / origin mode in {standard, always 200, 500 or 403 on conditionals, 500/404 always}; model = stored version + its validators; oracle on the origin log: revalidations carry exactly the stored validators, no client marker ever reaches the origin; on the client: 304 keeps the stored body (REVALIDATED) and the next request within the default lifetime is a HIT, 200 replaces it and the old body is never served again, any other status is relayed and the next request asks the origin again; non-trivial = history with >= 2 expiries including a 304 and a 200 replacement; distinct by history",
 	func(c Case, o *ev.Obs) *ev.Failure {
 		site := origin.NewSite()
 		org := origin.New(site.Handler())
@@ -376,6 +385,10 @@ func drawCase(t *rapid.T) Case {
 				ops = append(ops, Op{Kind: "mode", Mode: rapid.SampledFrom([]string{"standard", "standard", "always200", "cond500", "cond403", "all500", "all404"}).Draw(t, "mode")})
 			case 6:
 				ops = append(ops, Op{Kind: "bump", Scheme: rapid.SampledFrom([]string{"etag", "weak", "lm", "both", "none"}).Draw(t, "scheme")})
+			case 7:
+				// content changes under an unchanged tag, at an origin that ignores conditionals: store, expire, change, ask
+				sk := rapid.SampledFrom([]string{"sticky", "sticky-weak", "sticky+lm"}).Draw(t, "sticky")
+				ops = append(ops, Op{Kind: "mode", Mode: "always200"}, Op{Kind: "bump", Scheme: sk}, drawGet(), Op{Kind: "expire"}, Op{Kind: "bump", Scheme: sk}, drawGet(), drawGet(), Op{Kind: "mode", Mode: "standard"})
 			}
 			ops = append(ops, drawGet())
 		}
